@@ -146,7 +146,7 @@ def report(v, rows, bad, base, binary):
     exp = dict(zip(lns, expected_for([rows[ln - 1]["key"] for ln in lns])))
     with open(sub, "w") as f:
         for ln in lns:
-            f.write(json.dumps({"key": exp[ln]["key"], "desc": exp[ln]["desc"]}) + "\n")
+            f.write(json.dumps({"id": rows[ln - 1]["id"], "key": exp[ln]["key"], "desc": exp[ln]["desc"]}) + "\n")
     texts = os.path.join(d, "texts.ndjson")
     vlib.run_driver(binary, ["scenconfig", "-cases", sub, "-out", os.path.join(d, "again.ndjson"), "-texts", texts])
     txt = vlib.read_ndjson(texts)
@@ -169,7 +169,7 @@ def report(v, rows, bad, base, binary):
         v.violation(sig,
                     "case %d (%s, %s): TraceScenarioConfig invariant(s) %s fail: %s" % (
                         row["id"], row["key"]["k"], cls, ",".join(invs), " | ".join(detail)[:1500] or "see replay"),
-                    replay_obj={"key": row["key"], "invariants": invs, "desc": e["desc"],
+                    replay_obj={"id": row["id"], "seed": vlib.seed(), "key": row["key"], "invariants": invs, "desc": e["desc"],
                                 "expected": {"cfg": e["cfg"], "ammo": e["ammo"]},
                                 "observed": {st: resolve(row["out"], st) for st in row["out"]},
                                 "rendered": txt[i]["texts"]},
@@ -289,24 +289,22 @@ def run(tier, v):
 
 
 def replay(path, v):
+    import re
     obj = json.load(open(path))
     e = expected_for([obj["key"]])[0]
     d = vlib.scratch()
     cases, trace = os.path.join(d, "cases.ndjson"), os.path.join(d, "trace.ndjson")
-    vlib.write_ndjson(cases, [{"key": e["key"], "desc": e["desc"]}])
+    vlib.write_ndjson(cases, [{"id": obj.get("id", 1), "key": e["key"], "desc": e["desc"]}])
     binary = vlib.harness_build()
-    vlib.run_driver(binary, ["scenconfig", "-cases", cases, "-out", trace])
-    rows = vlib.read_ndjson(trace)
-    base = {}
-    bad = {}
-    for inv in CFG_INVS:
-        t = trace_check(trace, 1, [inv], 1, 300, "rp")
-        for inv2, st in t.all_violations:
-            bad.setdefault(1, set()).add(inv2)
-    for inv in sorted(bad.get(1, [])):
+    vlib.run_driver(binary, ["scenconfig", "-cases", cases, "-out", trace], env={"VERIF_SEED": obj.get("seed", vlib.seed())})
+    t = trace_check(trace, 1, CFG_INVS, 1, 300, "rp")
+    bad = set()
+    for inv, st in t.all_violations:
+        bad |= {what + _SUFFIX.get(style, style) for what, style in re.findall(r'<<"(\w+)", "(\w+)">>', st.get("bad", ""))} | {inv}
+    for inv in sorted(bad):
         print("replayed case violates %s" % inv)
     if bad:
-        v.violation("replay inv=%s" % "+".join(sorted(bad[1])), "replayed case still violates %s" % sorted(bad[1]))
+        v.violation("replay inv=%s" % "+".join(sorted(bad)), "replayed case still violates %s" % sorted(bad))
     else:
         print("replayed case satisfies every invariant")
     return None
